@@ -80,3 +80,20 @@ package util
 //@   props C04 C05 C06 C12 C17
 //@   allocs <= 1
 //@   ensures len(result) == len(set.elems)
+
+//@ func ASCIISet.Contains
+//@   props C17
+//@   pure
+//@   allocs <= 0
+//@   requires as != nil
+
+//@ func MakeASCIISet
+//@   props C17
+//@   allocs <= 0
+//@   loop 0 invariant 0 <= rangeint && rangeint < len(chars)
+//@   loop 0 decreases len(chars) - rangeint
+
+//@ func NewSet
+//@   props C17
+//@   loop 0 invariant -1 <= rangeindex && rangeindex < len(elems)
+//@   loop 0 decreases len(elems) - rangeindex
